@@ -57,7 +57,7 @@ CLAIMED["C03"] = dict(
     text="Coq: `_simplify_scoped_terms` preserves the multiset of components (intervals of the subset lattice) of every family of scoped terms, "
          "terminates within the stated fuel, and canonical spanned terms sharing a component are equal (so subtracting already-spanned terms keeps "
          "components disjoint); the materializer model uses that verified function and its recorded scoped terms equal the implementation's on "
-         "every case. A scoped term's column count equals the total dimension of the components it covers (proved, both directions of the enumeration); the single-factor span identity is proved. "
+         "every case. A scoped term's column count equals the total dimension of the components it covers (proved, both directions of the enumeration); the span identity (reference-level column = cofactor minus the other levels) is proved for a single factor and inside any interaction. "
          "The remaining bridge from components to rank (independence across components) is validated by exact rational rank on fully crossed designs, all contrasts.",
     note="Coq kernel + vm_compute; component<->column-space bridge argued on paper and validated by exact rank computation, not mechanised beyond the dimension count and the single-factor case",
     technique="Coq proof (multiset-of-components invariant of the greedy merge) + structure correspondence + exact-rank oracle",
